@@ -370,6 +370,42 @@ def r13g_get_or_insert_with(body, log):
     return body
 
 
+def r7f_messages(body, log, ctor='ErrMsg::new()'):
+    """R7f: diagnostic strings (`format!(..)`, `"..".to_string()`, `hex::encode(..)`, `x.to_string()` inside an
+    error constructor) are replaced by an opaque message value: they influence neither control flow nor state."""
+    n = 0
+    for opener in (r'format!\(', r'hex::encode\('):
+        while True:
+            mb = mask(body)
+            m = re.search(opener, mb)
+            if not m:
+                break
+            pc = match_close(mb, m.end() - 1)
+            body = body[:m.start()] + ctor + body[pc + 1:]
+            n += 1
+    body, k = re.subn(r'"(?:[^"\\]|\\.)*"\s*\.to_string\(\)', ctor, body)
+    n += k
+    body, k = re.subn(r'"(?:[^"\\]|\\.)*"\s*\.into\(\)', ctor, body)
+    n += k
+    if n:
+        log.append(f"R7f {n} diagnostic string expression(s) (format!/to_string/hex::encode) -> opaque message value")
+    return body
+
+
+def r3i_inclusive_range(body, log):
+    """R3i: `for x in A..=B {` -> explicit counter loop with the exact RangeInclusive semantics (no overflow at B == MAX)."""
+    pat = re.compile(r'for (\w+) in ([\w.()]+)\.\.=([\w.()]+) \{')
+    n = len(pat.findall(body))
+    if n:
+        def rep(m):
+            x, a, b = m.groups()
+            return (f"let mut __c_{x} = {a}; let mut __done_{x} = __c_{x} > {b};\n        while !__done_{x} {{\n            let {x} = __c_{x};"
+                    f" if __c_{x} == {b} {{ __done_{x} = true; }} else {{ __c_{x} += 1; }}")
+        body = pat.sub(rep, body)
+        log.append(f"R3i `for x in a..=b` -> counter loop with RangeInclusive semantics ({n}x)")
+    return body
+
+
 def r18_vec_set(body, log):
     pat = re.compile(r'(?m)^([ \t]*)(' + PATH + r')\[([^\]\n]+)\] = ([^;\n]+);')
     n = len(pat.findall(body))
@@ -580,6 +616,10 @@ def extract_fn(repo, fnspec):
         body = r17_get_mut(body, log)
     if 'R13g' in rules:
         body = r13g_get_or_insert_with(body, log)
+    if 'R7f' in rules:
+        body = r7f_messages(body, log)
+    if 'R3i' in rules:
+        body = r3i_inclusive_range(body, log)
     if 'R18' in rules:
         body = r18_vec_set(body, log)
     for d in fnspec.get('directives', []):
